@@ -15,6 +15,12 @@
    A SchedCycleRefused step (DELETE of stale requests refused) has no snapshot: OpenSession failed, `obs` stays
    NoObs and no cycle property is judged on it; what the NEXT cycles do with the request that was left is judged
    by C12_DeletedNode / C12_FailedCleaned, the end by C12_Quiesces.
+   Claim pods (cl = 1): `dev` / `lab` of the store projection are the devices in the request's resourceClaimAllocations /
+   in the claim's status.allocation, `inf` is the in-flight allocation in the memory of the scheduler's DRA manager,
+   the snapshot carries `used` (devices the DRA manager counts as allocated once the session is open) and `pcl` (the
+   pod's own ResourceClaimInfo).  The cycle is predicted under both in-flight rules; the C12_ predicates use the
+   constant InflightRule ("sticky" = judge the code as found; "session" = also judge C12_DevicesFreed / the design's
+   notion of "fits" in C12_Quiesces - the flag of checks/c12.py).
    One initial state per Scenario line; `l` = next line, `l0` = line of the Scenario.                       *)
 EXTENDS Handoff
 
@@ -35,6 +41,7 @@ Starts == {i \in 1..Len(Trace) : Trace[i].ev = "Scenario"}
 SetOf(seq) == {seq[i] : i \in 1..Len(seq)}
 StateOf(e) ==
   [lim |-> e.lim, gpus |-> e.gpus, req |-> [p \in Pods |-> e.req[p]], nd |-> [p \in Pods |-> e.nd[p]],
+   cl |-> [p \in Pods |-> e.cl[p]], inf |-> [p \in Pods |-> SetOf(e.st.pods[p].inf)],
    persist |-> FALSE, drain |-> e.st.drain = 1,
    up |-> e.st.up = 1, flips |-> e.st.flips, restarts |-> e.st.restarts, leaks |-> e.st.leaks,
    alive |-> [p \in Pods |-> e.st.pods[p].alive = 1],
@@ -47,6 +54,7 @@ StateOf(e) ==
 SnapOfLog(e) ==
   [st |-> [p \in Pods |-> e.snap.st[p]], on |-> [p \in Pods |-> e.snap.on[p] = NodeName],
    grp |-> [p \in Pods |-> SetOf(e.snap.grp[p])],
+   pcl |-> [p \in Pods |-> SetOf(e.snap.pcl[p])], used |-> SetOf(e.snap.used),
    mem |-> [d \in Slots |-> IF d <= Len(e.snap.mem) THEN e.snap.mem[d] ELSE 0],
    whole |-> e.snap.whole, idle |-> e.snap.idle, node |-> e.snap.node = 1]
 
@@ -66,6 +74,7 @@ EnabledIn(s, e) ==
     [] e.ev = "BinderAttempt" -> /\ s.q[e.p]
                                  /\ e.out = "faillabel" => Reach(s, e.p) /\ IsFrac(s, e.p) /\ s.nd[e.p] = 2
                                  /\ e.out = "panic" => PanicEnabled(s, e.p)
+                                 /\ e.out = "failclaim" => Reach(s, e.p) /\ IsClaim(s, e.p)
     [] e.ev = "BindDoneStatusLost" -> StatusLostEnabled(s, e.p)
     [] e.ev = "BinderCrashAfterLabel" -> CrashEnabled(s, e.p)
     [] e.ev = "BinderRestart" -> \E p \in Pods : s.br[p].ex /\ ~s.q[p]
@@ -80,7 +89,7 @@ Predict(s, e) ==
   IF e.ev \notin {"SchedCycle", "SchedCycleRefused", "BinderAttempt", "BindDoneStatusLost", "BinderCrashAfterLabel", "BinderRestart", "NodeDeleted",
                   "NodeAdded", "PodDeleted", "GcBr", "StartDrain", "Quiesced"} THEN {}
   ELSE IF ~EnabledIn(s, e) THEN {Quiet(s)}
-  ELSE CASE e.ev = "SchedCycle" -> {Quiet(t) : t \in CyclePosts(s)}
+  ELSE CASE e.ev = "SchedCycle" -> {Quiet(t) : t \in UNION {CyclePosts(s, r) : r \in InflightRules}}
     [] e.ev = "SchedCycleRefused" -> {Quiet(RefusedPost(s, e.p))}
     [] e.ev = "BinderAttempt" -> UNION {{[post |-> r.post, err |-> r.err, rq |-> r.rq, bind |-> r.bind] : r \in BinderRuns(s, e.p, e.out, rule)} : rule \in PatchRules}
     [] e.ev = "BindDoneStatusLost" -> {[post |-> StatusLostPost(s, e.p), err |-> FALSE, rq |-> 0, bind |-> TRUE]}
@@ -97,7 +106,7 @@ TraceInit ==
     /\ l0 = i /\ l = i + 1
     /\ S = StateOf(Trace[i]) /\ obs = NoObs /\ act = [n |-> "Init", p |-> "", out |-> ""]
     /\ pred = {Quiet(S)} /\ rec = [err |-> FALSE, rq |-> 0, bind |-> FALSE]
-    /\ xs = [model |-> SnapOf(S), cpu |-> 0, wf |-> WfLog(Trace[i]), ev |-> "Scenario", conv |-> FALSE]
+    /\ xs = [model |-> {SnapOf(S, r) : r \in InflightRules}, cpu |-> 0, wf |-> WfLog(Trace[i]), ev |-> "Scenario", conv |-> FALSE]
 
 TraceStep ==
   /\ l <= Len(Trace) /\ Trace[l].ev # "Scenario"
@@ -107,7 +116,7 @@ TraceStep ==
        /\ act' = [n |-> e.ev, p |-> e.p, out |-> e.out]
        /\ pred' = Predict(S, e)
        /\ rec' = [err |-> e.rec.err = 1, rq |-> e.rec.rq, bind |-> e.rec.bind = 1]
-       /\ xs' = [model |-> SnapOf(S), cpu |-> e.snap.cpu, wf |-> WfLog(e), ev |-> e.ev, conv |-> e.conv = 1]
+       /\ xs' = [model |-> {SnapOf(S, r) : r \in InflightRules}, cpu |-> e.snap.cpu, wf |-> WfLog(e), ev |-> e.ev, conv |-> e.conv = 1]
   /\ l' = l + 1 /\ UNCHANGED l0
 
 TraceNext == TraceStep
@@ -116,7 +125,7 @@ TraceSpec == TraceInit /\ [][TraceNext]_tvars
 (* ---- trace-level property: after the fault-free drain the hand-off has come to rest in a good state ------- *)
 C12_Quiesces == xs.ev = "Quiesced" => xs.conv /\ Quiescent(S)
 
-C12_All == /\ C12_Charged /\ C12_ChargedGroups /\ C12_NoDoubleBooking /\ C12_DeletedNode /\ C12_FailedCleaned
+C12_All == /\ C12_Charged /\ C12_ChargedGroups /\ C12_ChargedDevices /\ C12_DevicesFreed /\ C12_NoDoubleBooking /\ C12_DeletedNode /\ C12_FailedCleaned
            /\ C12_BoundedRetry /\ C12_AttemptsPersisted /\ C12_FailedObservable /\ C12_Quiesces
 
 (* ---- drift monitors ---------------------------------------------------------------------------------------- *)
@@ -124,6 +133,6 @@ D_WellFormed == xs.wf
 D_Model == C12_All => [post |-> S, err |-> rec.err, rq |-> rec.rq, bind |-> rec.bind] \in pred
 D_Snapshot ==
   (obs.k = "cycle" /\ C12_All) =>
-     /\ obs.snap = xs.model
+     /\ obs.snap \in xs.model
      /\ xs.cpu = IF obs.pre.up THEN NodeMilliCpu - PodMilliCpu * Cardinality(ChargedSet(obs.pre)) ELSE 0
 =============================================================================
